@@ -194,6 +194,8 @@ static int GRIstart(void);
 
 static int GRIgetaid(ri_info_t *img_ptr, int acc_perm);
 
+static int32 GRIimg_length(ri_info_t *ri_ptr);
+
 static int GRIisspecial_type(int32 file_id, uint16 tag, uint16 ref);
 
 #ifdef H4_HAVE_LIBSZ /* we have the library */
@@ -2663,7 +2665,7 @@ GRwriteimage(int32 riid, int32 start[2], int32 in_stride[2], int32 count[2], voi
         new_image = TRUE;
     else {
         /* Check if the actual image data is in the file yet, or if just the tag & ref are known */
-        if (Hlength(ri_ptr->gr_ptr->hdf_file_id, ri_ptr->img_tag, ri_ptr->img_ref) > 0)
+        if (GRIimg_length(ri_ptr) > 0)
             new_image = FALSE;
         else
             new_image = TRUE;
@@ -3059,7 +3061,7 @@ GRreadimage(int32 riid, int32 start[2], int32 in_stride[2], int32 count[2], void
     else {
         /* Check if the actual image data is in the file yet, or if just the
            tag & ref are known */
-        if (Hlength(hdf_file_id, ri_ptr->img_tag, ri_ptr->img_ref) > 0)
+        if (GRIimg_length(ri_ptr) > 0)
             image_data = TRUE;
         else
             image_data = FALSE;
@@ -4799,6 +4801,34 @@ GRIstart(void)
 done:
     return ret_value;
 } /* end GRIstart() */
+
+/*--------------------------------------------------------------------------
+ NAME
+    GRIimg_length
+ PURPOSE
+    Internal routine to get the current length of an image's data.
+ USAGE
+    int32 GRIimg_length(ri_ptr)
+        ri_info_t *ri_ptr;          IN: pointer to the image info
+ RETURNS
+    The length of the image data (<= 0 if there is none yet)
+ DESCRIPTION
+    When the image data is being accessed, the open access record is asked:
+    a compressed image that is being written is buffered in memory and its
+    length does not appear in the file until the access is ended.  Otherwise
+    the length of the data element in the file is used.
+--------------------------------------------------------------------------*/
+static int32
+GRIimg_length(ri_info_t *ri_ptr)
+{
+    int32 length = 0;
+
+    if (ri_ptr->img_aid != 0 && ri_ptr->img_aid != FAIL &&
+        Hinquire(ri_ptr->img_aid, NULL, NULL, NULL, &length, NULL, NULL, NULL, NULL) != FAIL)
+        return length;
+
+    return Hlength(ri_ptr->gr_ptr->hdf_file_id, ri_ptr->img_tag, ri_ptr->img_ref);
+} /* end GRIimg_length() */
 
 /*--------------------------------------------------------------------------
  NAME
